@@ -36,6 +36,8 @@ type Config struct {
 	Out        string       `json:"out"`
 	Solver     string       `json:"solver"`
 	TimeoutMs  int          `json:"solver_timeout_ms"`
+	TimeLimitS int          `json:"time_limit_s"`
+	PathLimitS int          `json:"path_limit_s"`
 	Samples    int          `json:"samples"`
 	Verbose    bool         `json:"verbose"`
 	LogQueries string       `json:"log_queries"`
@@ -88,6 +90,7 @@ func main() {
 	trace := flag.Bool("trace", false, "trace instructions")
 	flag.Parse()
 	debug.SetGCPercent(200)
+	progress := os.Getenv("GOSYM_PROGRESS") != ""
 	raw, err := os.ReadFile(*cfgPath)
 	if err != nil {
 		fatal(err)
@@ -143,6 +146,13 @@ func main() {
 		os.Exit(3)
 	}
 	prog.verbose = cfg.Verbose
+	prog.pathLimit = 180 * time.Second
+	if cfg.PathLimitS > 0 {
+		prog.pathLimit = time.Duration(cfg.PathLimitS) * time.Second
+	}
+	if cfg.TimeLimitS > 0 {
+		prog.hardStop = t0.Add(time.Duration(cfg.TimeLimitS+20) * time.Second)
+	}
 	out.LoadS = time.Since(t0).Seconds()
 	ti := time.Now()
 	s0, err := NewSolver(cfg.Solver, cfg.TimeoutMs)
@@ -241,6 +251,15 @@ func main() {
 					cond.Broadcast()
 					return
 				}
+				if cfg.TimeLimitS > 0 && time.Since(t0) > time.Duration(cfg.TimeLimitS)*time.Second {
+					for _, jj := range stack {
+						jj.hr.Problems["budget: time limit reached; exploration incomplete"]++
+					}
+					stack = nil
+					mu.Unlock()
+					cond.Broadcast()
+					return
+				}
 				j := stack[len(stack)-1]
 				stack = stack[:len(stack)-1]
 				active++
@@ -260,7 +279,12 @@ func main() {
 							mu.Unlock()
 						}
 					}()
+					tp := time.Now()
 					res = prog.runPathTraced(j.hr.h, sv, j.item, *trace)
+					if progress && res != nil {
+						fmt.Fprintf(os.Stderr, "[w%d] %s depth=%d status=%s steps=%d obl=%d new=%d %.2fs %s\n", w, j.hr.Name, len(j.item.prefix),
+							statusNames[res.status], res.steps, res.obligations, len(res.newWork), time.Since(tp).Seconds(), res.msg)
+					}
 				}()
 
 				mu.Lock()
